@@ -203,7 +203,9 @@ func vfAgQuery(a *Agent, name string, payload []byte, params *serf.QueryParam) (
 	return serf.VfNewQueryResponse(2, params.RequestAck, 3, 4, time.Hour), nil
 }
 func vfAgStats(a *Agent) map[string]map[string]string { return map[string]map[string]string{"agent": {"name": "self"}} }
-func vfAgReg(a *Agent, eh EventHandler)               {}
+var vfRegCalls int
+
+func vfAgReg(a *Agent, eh EventHandler) { vfRegCalls++ }
 func vfAgSetTags(a *Agent, tags map[string]string) error { return vfSymErr("agent.err") }
 
 func vfStubEncodeTagsSmall(s *serf.Serf, tags map[string]string) []byte { return []byte{255} }
@@ -294,5 +296,68 @@ func VfC25_Seq() {
 		vfAssert("C25.seq.malformed.ends", herr != nil && len(vfSent) == 0)
 	} else {
 		vfAssert("C25.seq.exactly.one.reply", len(vfSent) == 1)
+	}
+}
+
+// VfC25_StreamRequest: a stream request is either acknowledged and registered,
+// or refused and then leaves nothing behind: no stream under its sequence
+// number (so no record can ever be sent under a number that belongs to no
+// acknowledged stream) and no handler registered with the agent.
+//
+//vf:override (*github.com/hashicorp/serf/cmd/serf/command/agent.Agent).UserEvent = github.com/hashicorp/serf/cmd/serf/command/agent.vfAgUserEvent
+//vf:override (*github.com/hashicorp/serf/cmd/serf/command/agent.Agent).ForceLeave = github.com/hashicorp/serf/cmd/serf/command/agent.vfAgForceLeave
+//vf:override (*github.com/hashicorp/serf/cmd/serf/command/agent.Agent).ForceLeavePrune = github.com/hashicorp/serf/cmd/serf/command/agent.vfAgForceLeave
+//vf:override (*github.com/hashicorp/serf/cmd/serf/command/agent.Agent).Join = github.com/hashicorp/serf/cmd/serf/command/agent.vfAgJoin
+//vf:override (*github.com/hashicorp/serf/cmd/serf/command/agent.Agent).InstallKey = github.com/hashicorp/serf/cmd/serf/command/agent.vfAgKey
+//vf:override (*github.com/hashicorp/serf/cmd/serf/command/agent.Agent).UseKey = github.com/hashicorp/serf/cmd/serf/command/agent.vfAgKey
+//vf:override (*github.com/hashicorp/serf/cmd/serf/command/agent.Agent).RemoveKey = github.com/hashicorp/serf/cmd/serf/command/agent.vfAgKey
+//vf:override (*github.com/hashicorp/serf/cmd/serf/command/agent.Agent).ListKeys = github.com/hashicorp/serf/cmd/serf/command/agent.vfAgListKeys
+//vf:override (*github.com/hashicorp/serf/cmd/serf/command/agent.Agent).Leave = github.com/hashicorp/serf/cmd/serf/command/agent.vfAgErr
+//vf:override (*github.com/hashicorp/serf/cmd/serf/command/agent.Agent).Shutdown = github.com/hashicorp/serf/cmd/serf/command/agent.vfAgErr
+//vf:override (*github.com/hashicorp/serf/cmd/serf/command/agent.Agent).Query = github.com/hashicorp/serf/cmd/serf/command/agent.vfAgQuery
+//vf:override (*github.com/hashicorp/serf/cmd/serf/command/agent.Agent).Stats = github.com/hashicorp/serf/cmd/serf/command/agent.vfAgStats
+//vf:override (*github.com/hashicorp/serf/cmd/serf/command/agent.Agent).RegisterEventHandler = github.com/hashicorp/serf/cmd/serf/command/agent.vfAgReg
+//vf:override (*github.com/hashicorp/serf/cmd/serf/command/agent.Agent).DeregisterEventHandler = github.com/hashicorp/serf/cmd/serf/command/agent.vfAgReg
+//vf:override (*github.com/hashicorp/serf/cmd/serf/command/agent.Agent).SetTags = github.com/hashicorp/serf/cmd/serf/command/agent.vfAgSetTags
+//vf:override (*github.com/hashicorp/serf/cmd/serf/command/agent.IPCClient).Send = github.com/hashicorp/serf/cmd/serf/command/agent.vfStubSend
+//vf:override github.com/hashicorp/memberlist.Create = github.com/hashicorp/serf/cmd/serf/command/agent.vfStubMlCreate
+//vf:override (*github.com/hashicorp/serf/serf.Serf).encodeTags = github.com/hashicorp/serf/cmd/serf/command/agent.vfStubEncodeTagsSmall
+//vf:unwind 24
+//vf:bound inputs filter list from {user | user:deploy,member-joined (one valid, one invalid entry) | bogus | *}; a stream on the same sequence number exists or not
+//vf:stub as VfC25_Seq
+//vf:nonative
+func VfC25_StreamRequest() {
+	vfSent = nil
+	vfRegCalls = 0
+	conf := &serf.Config{NodeName: "self", ProtocolVersion: 5, EventBuffer: 4, QueryBuffer: 4, DisableCoordinates: false,
+		Tags: map[string]string{"a": "1"}, MemberlistConfig: &memberlist.Config{Name: "self"}}
+	s, err := serf.Create(conf)
+	vfAssert("C25.streamreq.setup", err == nil && s != nil)
+	a := &Agent{conf: conf, agentConf: &Config{}, serf: s}
+	i := &AgentIPC{agent: a, logWriter: NewLogWriter(4)}
+	c := &IPCClient{name: "c", version: 1, eventStreams: map[uint64]*eventStream{}, pendingQueries: map[uint64]*serf.Query{}}
+	seq := uint64(7)
+	var old *eventStream
+	if vfBool("exists") {
+		old = newEventStream(c, ParseEventFilter("*"), seq, nil)
+		c.eventStreams[seq] = old
+	}
+	k := vfChoice("filter", 4)
+	typ := [4]string{"user", "user:deploy,member-joined", "bogus", "*"}[k]
+	valid := k == 0 || k == 3
+	vfQueueDecode(&streamRequest{Type: typ})
+	herr := i.handleRequest(c, &requestHeader{Command: streamCommand, Seq: seq})
+	vfReach("C25.streamreq.done")
+	vfAssert("C25.streamreq.one.reply", herr == nil && len(vfSent) == 1)
+	if len(vfSent) != 1 {
+		return
+	}
+	refused := vfSent[0].hdr.Error != ""
+	vfAssert("C25.streamreq.refused.iff", refused == (!valid || old != nil))
+	cur := c.eventStreams[seq]
+	if refused {
+		vfAssert("C25.streamreq.refused.leaves.nothing", cur == old && vfRegCalls == 0)
+	} else {
+		vfAssert("C25.streamreq.accepted.registered", cur != nil && cur != old && vfRegCalls == 1)
 	}
 }
